@@ -294,6 +294,13 @@ def run(ctx):
         if len(sets) < 2:
             r4.violation("uses", "the punctuation set is consulted %d time(s); both the prefix search and the suffix scan must use it" % len(sets), common.fn_line(prog, sp))
     r4.floor(2, "one-set + contains")
+    singles = common.splitter_char_tests(prog, sp)
+    bad1 = sorted({c for c, w in singles if c.isalnum() or 0x0980 <= ord(c) <= 0x09FF})
+    if bad1:
+        r4.violation("single-tests", "the splitter also treats %s specially — a letter / digit / Bengali sign is split off the word as if it were punctuation"
+                     % " ".join("U+%04X" % ord(c) for c in bad1), common.fn_line(prog, sp))
+    else:
+        r4.ok("single-tests", "single-character tests: %s — no letter, digit or Bengali sign" % (" ".join(sorted({repr(c) for c, w in singles})) or "none"))
 
 
 def _converted_part(prog, b, v, acc, is_phonetic_parser):
